@@ -100,6 +100,10 @@ def build(tier, seed):
         cases.append({'kind': 'ms5', 'reps': reps})
         cases.append({'kind': 'ms5', 'reps': reps, 'prefix': 'corrD'})
         cases.append({'kind': 'ms5', 'reps': reps, 'prefix': 'xr4'})
+    # stored numbers of another magnitude: exponents x with |x| of a few hundred (exp(-x) still a finite double)
+    for version in ('1.4', '1.6', '2.0'):
+        for shift in (250.0, -250.0, 600.0):
+            cases.append({'kind': 'rwms', 'version': version, 'reps': [1, 2], 'first': 1, 'spacing': 1, 'rw_shift': shift})
     cases.append({'kind': 'sort-names'})
     from checks import c17_sfcf
     cases += c17_sfcf.build(tier)
@@ -114,6 +118,8 @@ def run_case(case):
         raise engine.MachineryError('synthetic formats not bound to the stored examples: %s' % problems)
     k = case['kind']
     d = tmpdir(k)
+    from mc.synth import sfcf as sfs
+    sfs.SCALE, sq.RW_SHIFT = case.get('scale', 1.0), case.get('rw_shift', 0.0)
     try:
         with quiet():
             if k == 'rwms':
@@ -130,6 +136,7 @@ def run_case(case):
                 from checks import c17_sfcf
                 c17_sfcf.run(pe, acc, case, d)
     finally:
+        sfs.SCALE, sq.RW_SHIFT = 1.0, 0.0
         shutil.rmtree(d, ignore_errors=True)
     return acc
 
